@@ -86,6 +86,19 @@ Theorem C15_delete_exact : forall (ps : list path) (mfs : list manifest),
 Proof. exact delete_exact. Qed.
 Print Assumptions C15_delete_exact.
 
+(* ... and this is what every committing transaction does with it: the new snapshot lists exactly the base
+   snapshot's entries that no queued delete names (path / adding snapshot / sequence number unchanged, order kept),
+   followed by the appended files stamped with the new snapshot's id and sequence number. No hypothesis. *)
+Theorem C15_txn_files : forall (st : state) (ops : list txop) (id t tu f : Z) (st' : state) (s : snap),
+  step_full st (Txn ops id t tu f) = (st', Committed, Some s) ->
+  exists base, base_manifests (md st) = Some base /\
+    sid s = id /\ seq s = last_seq (md st) + 1 /\
+    map ekey (entries (mlist s)) =
+      map ekey (filter (fun e => negb (named (tx_dels ops) e)) (entries base))
+      ++ map (fun p => (p, id, last_seq (md st) + 1)) (tx_adds ops).
+Proof. exact txn_snapshot_files. Qed.
+Print Assumptions C15_txn_files.
+
 (* through every history, every manifest entry of every committed snapshot carries the id and the sequence number
    of the snapshot that added the file (where it appears as an ADDED entry), and that number is <= the snapshot's *)
 Theorem C15_entries_provenance : forall (t0 f0 : Z) (ops : list op),
